@@ -449,7 +449,10 @@ def run_to_completion(state: State, external_event: Union[dict, Event]) -> State
 
         advancing_heads = _resolve_action_conflicts(state, actionable_heads)
 
-        heads_are_advancing = len(advancing_heads) > 0
+        # (a flow that failed while creating its event leaves internal events to process)
+        heads_are_advancing = (
+            len(advancing_heads) > 0 or len(state.internal_events) > 0
+        )
         actionable_heads = _advance_head_front(state, advancing_heads)
         heads_are_merging = True
 
@@ -835,8 +838,8 @@ def _resolve_action_conflicts(
     advancing_heads: List[FlowHead] = []
     if len(actionable_heads) == 1:
         # If we have only one actionable head there is no conflict
-        advancing_heads = actionable_heads
-        _generate_action_event_from_actionable_element(state, list(actionable_heads)[0])
+        if _generate_action_event_or_fail_flow(state, list(actionable_heads)[0]):
+            advancing_heads = actionable_heads
     elif len(actionable_heads) > 1:
         # Group all actionable heads by their flows interaction loop
         head_groups: Dict[str, List[FlowHead]] = {}
@@ -888,8 +891,8 @@ def _resolve_action_conflicts(
                 picked_head.matching_scores,
             )
 
-            advancing_heads.append(picked_head)
-            _generate_action_event_from_actionable_element(state, picked_head)
+            if _generate_action_event_or_fail_flow(state, picked_head):
+                advancing_heads.append(picked_head)
             for head in ordered_heads:
                 if head == picked_head:
                     continue
@@ -2476,6 +2479,34 @@ def get_event_from_element(
             return new_event
 
     raise ColangRuntimeError("Unsupported case!")
+
+
+def _generate_action_event_or_fail_flow(state: State, head: FlowHead) -> bool:
+    """Create the outgoing event of an actionable head; if the event cannot be created (e.g. an
+    invalid event argument) only the flow of that head fails and a ColangError event is generated.
+
+    Returns True if the event was created."""
+    try:
+        _generate_action_event_from_actionable_element(state, head)
+        return True
+    except Exception as e:
+        flow_state = get_flow_state_from_head(state, head)
+        log.warning(
+            "Flow '%s' failed due to Colang runtime exception while creating an event: %s",
+            flow_state.flow_id,
+            e,
+            exc_info=True,
+        )
+        colang_error_event = Event(
+            name="ColangError",
+            arguments={
+                "type": str(type(e).__name__),
+                "error": str(e),
+            },
+        )
+        _push_internal_event(state, colang_error_event)
+        _abort_flow(state, flow_state, head.matching_scores)
+        return False
 
 
 def _generate_action_event_from_actionable_element(
